@@ -61,7 +61,7 @@ pub fn run_batch(prop: Prop, seed: u64, first: u64, runs: u64, threads: usize, k
         let slots = slots.clone();
         let stop = stop.clone();
         std::thread::spawn(move || {
-            let limit_ms: u64 = std::env::var("WIRESIM_HANG_MS").ok().and_then(|v| v.parse().ok()).unwrap_or(120_000);
+            let limit_ms: u64 = std::env::var("WIRESIM_HANG_MS").ok().and_then(|v| v.parse().ok()).unwrap_or(60_000);
             while !stop.load(Ordering::Relaxed) {
                 std::thread::sleep(std::time::Duration::from_millis(200));
                 let now = t0.elapsed().as_millis() as u64;
